@@ -49,7 +49,8 @@ pub enum Site {
     /// whose min_mint_price is in ustars / the IBC denom; `minter` is the code the factory creates
     Create { factory: FactoryKind, minter: MinterKind, fee_native: bool, mint_native: bool, fee: u128 },
     /// Shuffle on a minter whose factory asks `fee` ustars for it
-    Shuffle { minter: MinterKind, fee: u128 },
+    /// (by the collection's creator/admin when `by_admin`, else by a buyer)
+    Shuffle { minter: MinterKind, fee: u128, by_admin: bool },
     /// instantiate of whitelist kind 0..3 = plain, flex, tiered, tiered-flex
     WlCreate { kind: u8, member_limit: u32 },
     WlIncrease { kind: u8, old: u32, new: u32 },
@@ -57,7 +58,8 @@ pub enum Site {
     EnableUpdatable,
     AirdropInit,
     BaseMint { price: u128, bps: u64 },
-    Mint { minter: MinterKind, mode: MintMode, native: bool, price: u128, bps: u64 },
+    /// `by_creator`: a public mint sent by the collection's creator (who is also the seller)
+    Mint { minter: MinterKind, mode: MintMode, native: bool, price: u128, bps: u64, by_creator: bool },
 }
 
 #[derive(Clone, Debug, Serialize, Deserialize, PartialEq, Eq, PartialOrd, Ord)]
@@ -295,14 +297,15 @@ pub fn run_case(c: &SiteCase) -> Result<Outcome, String> {
                 wf::exec_json(app, CREATOR, &fa, &msg, &coins_of(&req.funds))
             }))
         }
-        Site::Shuffle { minter, fee } => {
+        Site::Shuffle { minter, fee, by_admin } => {
             let fee = *fee;
             let w = wf::setup_minter_with(*minter, |p, _| p.shuffle_fee = (NATIVE.to_string(), fee))?;
             let mut app = w.app;
-            rich(&mut app, BUYER, &funds);
+            let who = if *by_admin { wf::CREATOR } else { BUYER };
+            rich(&mut app, who, &funds);
             let m = w.minter.clone();
-            let st = Stage { app, contract: m.to_string(), payer: BUYER.into(), dev: None, seller: None };
-            Ok(observe(st, move |app| wf::exec_json(app, BUYER, &m, &json!({"shuffle": {}}), &funds)))
+            let st = Stage { app, contract: m.to_string(), payer: who.into(), dev: None, seller: None };
+            Ok(observe(st, move |app| wf::exec_json(app, who, &m, &json!({"shuffle": {}}), &funds)))
         }
         Site::WlCreate { kind, member_limit } => {
             let mut app = chain::new_app();
@@ -407,11 +410,11 @@ pub fn run_case(c: &SiteCase) -> Result<Outcome, String> {
                 wf::exec_json(app, wf::CREATOR, &m, &json!({"mint": {"token_uri": "ipfs://bafybeiavall5udkxkdtdm4djezoxrmfc6o5fn2ug3ymrlvibvwmwydgrkm/1.jpg"}}), &funds)
             }))
         }
-        Site::Mint { minter, mode, native, price, bps } => run_mint(*minter, *mode, *native, *price, *bps, funds),
+        Site::Mint { minter, mode, native, price, bps, by_creator } => run_mint(*minter, *mode, *native, *price, *bps, *by_creator, funds),
     }
 }
 
-fn run_mint(minter: MinterKind, mode: MintMode, native: bool, price: u128, bps: u64, funds: Vec<Coin>) -> Result<Outcome, String> {
+fn run_mint(minter: MinterKind, mode: MintMode, native: bool, price: u128, bps: u64, by_creator: bool, funds: Vec<Coin>) -> Result<Outcome, String> {
     let d = denom_of(native).to_string();
     let dev = if is_oe(minter) { Some(wf::DEV_ADDRESS.to_string()) } else { None };
     match mode {
@@ -434,7 +437,7 @@ fn run_mint(minter: MinterKind, mode: MintMode, native: bool, price: u128, bps: 
             let mut app = w.app;
             let now = chain::now(&app);
             chain::set_time(&mut app, now + 200 * SEC);
-            let payer = if airdrop { wf::CREATOR } else { BUYER };
+            let payer = if airdrop || by_creator { wf::CREATOR } else { BUYER };
             rich(&mut app, payer, &funds);
             let m = w.minter.clone();
             let st = Stage { app, contract: m.to_string(), payer: payer.into(), dev, seller: Some(wf::CREATOR.into()) };
@@ -572,7 +575,7 @@ pub fn expectation(c: &SiteCase) -> Expect {
                 }
             }
         }
-        Site::Shuffle { minter, fee } => fb(minter.name(), "shuffle", *fee),
+        Site::Shuffle { minter, fee, .. } => fb(minter.name(), "shuffle", *fee),
         Site::WlCreate { kind, member_limit } => fb(wl_name(*kind), "instantiate", ceil_div(*member_limit as u128, 1000) * 100_000_000),
         Site::WlIncrease { kind, old, new } => fb(
             wl_name(*kind),
@@ -585,7 +588,7 @@ pub fn expectation(c: &SiteCase) -> Expect {
         Site::EnableUpdatable => fb("sg721-updatable", "enable_updatable", 1_500_000_000),
         Site::AirdropInit => fb("sg-eth-airdrop", "instantiate", 100_000_000),
         Site::BaseMint { price, bps } => fb("base-minter", "mint", price * *bps as u128 / 10_000),
-        Site::Mint { minter, mode, native, price, bps } => Expect {
+        Site::Mint { minter, mode, native, price, bps, .. } => Expect {
             contract_name: minter.name().to_string(),
             op: match mode {
                 MintMode::Public => "mint",
@@ -872,7 +875,12 @@ pub fn gen_cases(thorough: bool, rng: &mut Rng) -> Vec<SiteCase> {
     for m in MinterKind::ALL.iter().filter(|m| matches!(m.factory(), FactoryKind::Vending | FactoryKind::TokenMerge)) {
         for fee in [1u128, 2, 3, 500_000_000, 500_000_001] {
             for f in payments(fee, NATIVE, fee == 3 || fee == 500_000_000) {
-                push(Site::Shuffle { minter: *m, fee }, f);
+                push(Site::Shuffle { minter: *m, fee, by_admin: false }, f);
+            }
+            if fee == 3 || fee == 500_000_001 {
+                for f in payments(fee, NATIVE, fee == 3) {
+                    push(Site::Shuffle { minter: *m, fee, by_admin: true }, f);
+                }
             }
         }
     }
@@ -949,13 +957,46 @@ pub fn gen_cases(thorough: bool, rng: &mut Rng) -> Vec<SiteCase> {
                     }
                     let all = *price == 30 || (*price == 100_000_000 && (native || thorough));
                     for f in payments(*price, denom_of(native), all) {
-                        push(Site::Mint { minter: *m, mode, native, price: *price, bps: *bps }, f);
+                        push(Site::Mint { minter: *m, mode, native, price: *price, bps: *bps, by_creator: false }, f);
+                    }
+                    // the creator buying from the own collection pays the same fee
+                    if mode == MintMode::Public && (*price == 90 || *price == 100_000_000) {
+                        push(Site::Mint { minter: *m, mode, native, price: *price, bps: *bps, by_creator: true }, vec![(denom_of(native).to_string(), *price)]);
                     }
                 }
             }
         }
     }
     out
+}
+
+/// Observation, not a verdict: a vending factory INSTANTIATED with a shuffle fee in a
+/// non-native denom (sudo update_params refuses that, instantiate does not).  The minter
+/// reads only the amount and charges it in ustars.
+pub fn probe_shuffle_fee_in_ibc_denom() -> String {
+    let mut lines = vec![];
+    for pay_denom in [IBC, NATIVE] {
+        let w = match wf::setup_minter_with(MinterKind::Vending, |p, _| p.shuffle_fee = (IBC.to_string(), 500)) {
+            Ok(w) => w,
+            Err(e) => return format!("shuffle_fee in {}: the factory / minter cannot be created: {}", IBC, e),
+        };
+        let funds = vec![coin(500, pay_denom)];
+        let mut app = w.app;
+        rich(&mut app, BUYER, &funds);
+        let m = w.minter.clone();
+        let st = Stage { app, contract: m.to_string(), payer: BUYER.into(), dev: None, seller: None };
+        let o = observe(st, move |app| wf::exec_json(app, BUYER, &m, &json!({"shuffle": {}}), &funds));
+        lines.push(format!(
+            "paying 500 {}: {} (burned {} ustars, pool +{} ustars, launchpad DAO +{} {})",
+            pay_denom,
+            if o.ok { "accepted" } else { "rejected" },
+            o.delta(BURNED, NATIVE),
+            o.delta(chain::FAIRBURN_POOL, NATIVE),
+            o.delta(LAUNCHPAD_DAO, IBC),
+            IBC
+        ));
+    }
+    format!("observation (vending-minter Shuffle, factory instantiated with shuffle_fee = 500 {}): {}", IBC, lines.join("; "))
 }
 
 pub fn kind(c: &SiteCase) -> String {
